@@ -186,6 +186,27 @@ def gen_tree(rng: Any, *, max_depth: int = 4, max_fanout: int = 4, max_nodes: in
         order.append((p, phase, len(nodes[p][phase]) - 1))
         remaining[p][phase] -= 1
         advance(p)
+    # a multi-type publication that conflicts on its *second* type: it must raise ResourceConflict and register nothing,
+    # in particular not its first type, which another component publishes (and others may be waiting for) later on
+    pubs = []
+    for (p, phase, idx) in order:
+        st = nodes[p][phase][idx]
+        if st[0] == "publish":
+            pubs.append((p, phase, st))
+    inserted = 0
+    for i, (p1, ph1, st1) in enumerate(pubs):
+        r1 = resources[st1[1]]
+        if inserted >= 2 or r1["kind"] != "static" or rng.random() > 0.35:
+            continue
+        later = [st2 for (p2, ph2, st2) in pubs[i + 1:] if resources[st2[1]]["name"] == r1["name"] and resources[st2[1]]["type"] != r1["type"]
+                 and resources[st2[1]]["kind"] in ("static", "factory", "afactory") and p2 != p1]
+        if not later:
+            continue
+        st2 = rng.choice(later)
+        steps = nodes[p1][ph1]
+        pos = next(k for k, x in enumerate(steps) if x is st1)
+        steps.insert(pos + 1, ["bad_publish", st1[1], st2[1]])
+        inserted += 1
     if wait_heavy:
         # delay about half of the publications so that requests made earlier really have to wait
         # (a sleep has no dependencies, so inserting it keeps the happens-before graph acyclic)
@@ -279,8 +300,16 @@ def schedule(tree: dict[str, Any]) -> dict[str, Any]:
 
 
 class Value:
+    """resource values; about a third of them are *falsy* objects (like an empty registry or mapping)"""
+
     def __init__(self, rid: Any, serial: int = 0) -> None:
         self.rid, self.serial = rid, serial
+
+    def __bool__(self) -> bool:
+        try:
+            return int(self.rid) % 3 != 0
+        except (TypeError, ValueError):
+            return True
 
     def __repr__(self) -> str:
         return f"Value(r{self.rid}#{self.serial})"
@@ -495,6 +524,16 @@ class Run:
                 else:
                     add_resource(v, r["given_name"], types)
             self.log("published", path, rid=rid)
+        elif kind == "bad_publish":
+            r1 = self.tree["resources"][str(st[1])]
+            r2 = self.tree["resources"][str(st[2])]
+            try:
+                # the name as *registered* for r1 (this runs in the same phase, so the same remapping applies to r1's given name)
+                add_resource(Value(f"rejected-{st[1]}"), r1["given_name"], [RTYPES[r2["type"]], RTYPES[r1["type"]]])
+                outcome = "accepted"
+            except Exception as e:
+                outcome = type(e).__name__
+            self.log("bad-publish", path, outcome=outcome, first_type_of=str(st[2]))
         elif kind == "wait":
             rid = str(st[1])
             r = self.tree["resources"][rid]
@@ -731,6 +770,10 @@ def check_success(run: Run, *, exact_schedule: bool = True) -> tuple[list[dict[s
                     inc("waits_that_blocked")
                 else:
                     inc("waits_already_published")
+        elif e["kind"] == "bad-publish":
+            inc("conflicting_multi_type_publications")
+            if e["outcome"] != "ResourceConflict":
+                bad("wait-conflicting-publication", f"a multi-type add_resource conflicting on its second type in {e['actor']!r}: {e['outcome']} (expected ResourceConflict)")
         elif e["kind"] == "timed-wait-end":
             inc("timed_waits")
             if e["timed_out"]:
